@@ -63,8 +63,12 @@ func (v *Vue) evaluate(ctx VueContext, nodes []*html.Node, depth int) ([]*html.N
 		case html.ElementNode:
 			tag := node.Data
 
-			// Check for v-once early - skip if already rendered.
-			if helpers.HasAttr(node, "v-once") {
+			// Check for v-once early - skip if already rendered. The head of a v-if chain is
+			// decided later, by evaluateNodeAsElement, once its condition is known: an element
+			// whose condition is false is not emitted and must not count as emitted, and a head
+			// that was emitted before must still leave the chain to its else-branches.
+			deferOnce := helpers.HasAttr(node, "v-if") && !helpers.HasAttr(node, "v-pre") && !helpers.HasAttr(node, "v-for")
+			if helpers.HasAttr(node, "v-once") && !deferOnce {
 				admitted, ok := ctx.admitOnce(node)
 				if !ok {
 					// This v-once element has already been rendered, skip it
